@@ -1352,7 +1352,13 @@ class _Memo:
 
 
 def run_logger_impl(maxlen, ops, memo):
-    """returns (trace string, violation or None)"""
+    """returns (trace string, violation or None).
+
+    The view clause is checked against a reference computed in plain Python from the operation sequence alone (no state of
+    the logger under test and no model output is used): ref_window = the last maxlen entries logged while not paused since the
+    last clear; ref_aged = entries that fell out of that window while visible and have matched every filter installed since;
+    ref_view = the entries of ref_aged + ref_window that matched when they were logged / when the current filter was installed.
+    A set_filter that cannot be compiled, or whose filter raises on a retained entry, changes nothing."""
     import logging
     from hippolyzer.lib.proxy import message_logger as ml
     old = ml.compile_filter
@@ -1364,49 +1370,68 @@ def run_logger_impl(maxlen, ops, memo):
         logger = ml.FilteringMessageLogger(maxlen=maxlen)
         ids = {}
         objs = []
-        aged = []
         trace = []
-        viol = None
+        view_viol = None
+        window_viol = None
         raised_in_set = False
+        # reference state
+        ref_window, ref_aged, ref_view = [], [], []
+        ref_paused = False
+        ref_filter = memo("")
         for n, o in enumerate(ops):
-            before_raw = list(logger._raw_entries)
+            skip_obs = False
             if o[0] == "L":
                 e = mk_entry(LOG_ENTRIES[o[1]])
                 ids[id(e)] = len(objs) + 1
                 objs.append(e)
-                was_paused = logger.paused
+                if not ref_paused:
+                    ref_window.append(e)
+                    if len(ref_window) > maxlen:
+                        gone = ref_window.pop(0)
+                        if any(gone is y for y in ref_view):
+                            ref_aged.append(gone)
+                    if _safe_match(ref_filter, e):
+                        ref_view.append(e)
                 try:
                     logger.add_log_entry(e)
                 except Exception as ex:
                     trace.append("EXC:" + type(ex).__name__)
-                    continue
-                if not was_paused:
-                    for x in before_raw:
-                        if not any(x is y for y in logger._raw_entries) and any(x is y for y in logger):
-                            aged.append(x)
+                    skip_obs = True
             elif o[0] == "S":
                 text = BAD_FILTER if o[1] is None else print_expr(LOG_FILTERS[o[1]])
+                try:
+                    new = memo(text)
+                    keep_aged = [x for x in ref_aged if new.match(x)]
+                    keep_win = [x for x in ref_window if new.match(x)]
+                    ref_filter, ref_aged, ref_view = new, keep_aged, keep_aged + keep_win
+                except Exception:
+                    pass
                 try:
                     logger.set_filter(text)
                 except Exception:
                     raised_in_set = raised_in_set or o[1] is not None
-                aged = [x for x in aged if _safe_match(logger.filter, x)]
             elif o[0] == "P":
+                ref_paused = bool(o[1])
                 logger.set_paused(bool(o[1]))
             else:
+                ref_window, ref_aged, ref_view = [], [], []
                 logger.clear()
-                aged = []
+            if skip_obs:
+                continue
             raw_ids = [ids[id(x)] for x in logger._raw_entries]
             view_ids = [ids[id(x)] for x in logger]
             trace.append(",".join(map(str, raw_ids)) + "|" + ",".join(map(str, view_ids)))
             # the property itself: the view is exactly the retained entries matching the current filter, in
             # arrival order, without duplicates
-            want = [ids[id(x)] for x in aged + list(logger._raw_entries) if _safe_match(logger.filter, x)]
-            if viol is None and (view_ids != want or len(set(view_ids)) != len(view_ids) or view_ids != sorted(view_ids)):
-                viol = {"kind": "logger", "maxlen": maxlen, "ops": [list(x) for x in ops[:n + 1]], "view": view_ids, "want": want,
-                        "clause": "the view is exactly the retained entries matching the current filter, in arrival order",
-                        "class": "set-filter-not-atomic" if raised_in_set else "view-invariant"}
-        return ";".join(trace), viol
+            want = [ids[id(x)] for x in ref_view]
+            if view_viol is None and (view_ids != want or len(set(view_ids)) != len(view_ids) or view_ids != sorted(view_ids)):
+                view_viol = {"kind": "logger", "maxlen": maxlen, "ops": [list(x) for x in ops[:n + 1]], "view": view_ids, "want": want,
+                             "clause": "the view is exactly the retained entries matching the current filter, in arrival order",
+                             "class": "set-filter-not-atomic" if raised_in_set else "view-invariant"}
+            if window_viol is None and len(raw_ids) > maxlen:
+                window_viol = {"kind": "logger", "maxlen": maxlen, "ops": [list(x) for x in ops[:n + 1]], "window": raw_ids,
+                               "clause": "the retention window holds at most maxlen entries", "class": "window-exceeds-maxlen"}
+        return ";".join(trace), (view_viol or window_viol)
     finally:
         ml.compile_filter = old
         lg.disabled = old_dis
@@ -1465,9 +1490,10 @@ def correspond_logger(ctx):
                      rule="every sequence up to length %d over {log matching entry, log other entry, set 3 filters, pause, resume, "
                           "clear} for maxlen 1,2,3 (exhaustive), plus seeded random sequences of length 5..29, 30%% of them with a filter "
                           "that raises on some entries, an uncompilable filter and an EQ entry; after every operation the ids in the "
-                          "window and in the view are compared with the extracted model, and the view invariant is checked on the "
-                          "implementation against an independently tracked aged list; non-trivial = distinct sequence with at least one "
-                          "eviction or re-filter" % ctx.pick(4, 5))
+                          "window and in the view are compared with the extracted model; independently of the model, the view is compared "
+                          "with a reference view computed in plain Python from the operation sequence alone (last maxlen entries logged "
+                          "since the last clear + entries evicted while visible that matched every filter since) and the window length "
+                          "is checked against maxlen; non-trivial = distinct sequence with at least one eviction or re-filter" % ctx.pick(4, 5))
     memo = _Memo(compile_filter)
     lines, impl, metas = [], [], []
     seen = set()
@@ -1494,7 +1520,9 @@ def correspond_logger(ctx):
             res.disagreements.append({"op": "logger", "maxlen": maxlen, "ops": [list(o) for o in ops], "impl": io, "model": mo})
     res.evaluations = len(lines)
     res.distinct_nontrivial = nontriv
-    res.impl_violations = dedupe_violations(viols)
+    # the observable clause (view) first, the window bound after it; each reported sequence is shrunk
+    viols.sort(key=lambda v: v.get("class") == "window-exceeds-maxlen")
+    res.impl_violations = [shrink_logger(v) for v in dedupe_violations(viols)]
     res.distribution = dist
     res.exhaustive = False
     res.samples = [{"kind": k, "maxlen": m, "ops": [list(o) for o in ops][:8], "impl": io[:120]} for (k, m, ops), io in list(zip(metas, impl))[300:302] + list(zip(metas, impl))[-2:]]
